@@ -87,7 +87,7 @@ def run(env, rep):
         "active_stream_id == Some(message stream id), metadata needs the stream-id fact; R5 the stop functions store Connected, "
         "take active_stream_id and send deleteStream with that id; R6 a ping request is answered with its own timestamp; R7 the "
         "transaction key is a lossy cast of the f64 id (known finding D13); R8 every transaction is registered under the current value of "
-        "the session's transaction counter, the counter is advanced past it on the same path, and the command sent carries that id.  Not decided: the reachable-state claim as a whole.")
+        "the session's transaction counter, the counter is advanced past it on the same path, and the command sent carries that id; R9 current_state / active_stream_id change only on paths that consumed the transaction they answer or that established an entry state the transition may start from (Play.Start from PlayRequested, Publish.Start from PublishRequested, stop from the four play / publish states).  Not decided: the reachable-state claim as a whole.")
     from .. import interp as I
     I.ELEM_SOURCES[0] = True
     S = {n: state_discr(prog, n) for n in ("Disconnected", "Connected", "PlayRequested", "Playing", "PublishRequested", "Publishing")}
@@ -269,6 +269,36 @@ def run(env, rep):
                     why.append("deleteStream is not sent with the active stream id as argument and message stream id")
         rep.check("C10.R5", "%s|stop" % name, ok and n >= 2, "stores Connected, takes active_stream_id, sends deleteStream(id) on stream id (%d paths)" % n,
                   "%s: %s" % (name, "; ".join(sorted(set(why))) or "no stopping path"), bodies[name].span if name in bodies else None)
+    # ------------------------------------------------------------------ R9 the state changes only along the workflow's transitions
+    # a path that stores current_state (or touches active_stream_id) either consumed the transaction it answers, or established that
+    # the state at entry is one the transition may start from: Play.Start from PlayRequested, Publish.Start from PublishRequested,
+    # back to Connected from the four play / publish states (stop); nothing ever stores Disconnected
+    FROM = {"Playing": {S["PlayRequested"]}, "Publishing": {S["PublishRequested"]},
+            "Connected": {S["PlayRequested"], S["Playing"], S["PublishRequested"], S["Publishing"]}}
+    n9, bad9 = 0, []
+    for name, paths in sorted(traces.items()):
+        for p in paths:
+            st = [t for t in p if t[0] == "store" and t[1] == "current_state"]
+            touch = [t for t in p if (t[0] == "store" and t[1] == "active_stream_id") or (t[0] == "mut" and t[2] == "active_stream_id" and t[1].split("::")[-1] not in ("as_ref", "is_some", "is_none", "clone"))]
+            if not st and not touch:
+                continue
+            n9 += 1
+            consumed = any(t[0] == "mut" and t[2] == "outstanding_transactions" and t[1] == "remove" for t in p)
+            entry = states_on(p, ALL)
+            if consumed:
+                continue
+            if entry == ALL:
+                bad9.append("%s %s on a path that neither answers a transaction nor tests the current state" % (
+                    name, ("stores current_state := " + st[-1][2]) if st else "changes active_stream_id"))
+                continue
+            for t in st:
+                target = t[2].split("::")[-1]
+                allowed = FROM.get(target)
+                if allowed is None or not entry <= allowed:
+                    bad9.append("%s stores %s on a path that can be entered in state(s) %s" % (name, t[2], sorted(k for k, v in S.items() if v in entry - (allowed or set()))))
+    rep.check("C10.R9", "state-changes-only-along-the-workflow", n9 >= 6 and not bad9,
+              "current_state / active_stream_id change only on paths that consumed the answered transaction or start from a state the transition allows (%d paths)" % n9,
+              "; ".join(sorted(set(bad9))[:3]) or "fewer state-changing paths than expected", bodies["handle_on_status_command"].span if "handle_on_status_command" in bodies else None)
     # ------------------------------------------------------------------ R6 ping
     paths = traces.get("handle_ping_request", [])
     okp = any(t[0] == "call" and t[1].endswith("into_message_payload") and re.search(r"UserControlEventType::PingResponse, None, None, load\(timestamp\)\)", t[2][0]) for p in paths for t in p)
